@@ -372,8 +372,14 @@ class BaseDAG(Generic[P, RVDAG]):
         #  maybe the composed DAG will modify them (e.g. change their tags)
         #  and we don't want to modify the original DAG
         # we avoid adding the inputs because they will be modified just afterwards
+        def _copy_xn(xn: ExecNode) -> ExecNode:
+            xn_copy = deepcopy(xn)
+            # the callable of the user is never copied (a bound method keeps its object)
+            object.__setattr__(xn_copy, "exec_function", xn.exec_function)
+            return xn_copy
+
         xn_dict = StrictDict(
-            (in_id, deepcopy(self.exec_nodes[in_id])) for in_id in set_xn_ids if in_id not in in_ids
+            (in_id, _copy_xn(self.exec_nodes[in_id])) for in_id in set_xn_ids if in_id not in in_ids
         )
 
         # change input ExecNodes to ArgExecNodes
